@@ -666,9 +666,18 @@ def replay_concrete(cfg, kind, values, decisions):
                 series[c] = tot(slot[nm])
     cs = ['S', 'I'] + (['R'] if sir else [])
     tol = 1e-6 * max(1.0, N)
-    if kind.startswith('rhs-defined-at-X0'):
+    if kind == 'rhs-defined-at-X0' or kind.startswith('rhs-defined-at-X0:ZeroDivision') or kind.startswith('rhs-defined-at-X0:Float'):
         nan = [c for c in cs if np.isnan(series[c]).any() or np.isinf(series[c]).any()]
         return {'reproduced': bool(nan), 'concrete_detail': {'nan_in': nan, 'S': series['S'].tolist()[:4]}, 'how': 'real code, real integrator'}
+    if kind.startswith('rhs-evaluates') or kind.startswith('rhs-defined-at-X0:'):
+        # the right-hand side could not be evaluated on symbolic states (e.g. it forces a float array): judge the real run by what
+        # the property demands of it -- finite, conserved, monotone where claimed
+        tot_ = sum(series[c] for c in cs)
+        nan = bool(np.isnan(tot_).any() or np.isinf(tot_).any())
+        cons = (not nan) and float(np.max(np.abs(tot_ - N))) > 1e-4 * N
+        mono = (not nan) and sir and (np.any(np.diff(series['S']) > 1e-6) or np.any(np.diff(series['R']) < -1e-6))
+        return {'reproduced': bool(nan or cons or mono), 'concrete_detail': {'S+I+R': tot_.tolist(), 'N': N, 'nan': nan, 'monotone_violated': bool(mono)},
+                'how': 'real code, real integrator'}
     if kind == 'integrator-starts-at-tmin':
         # autonomous systems: the run from tmin must be the run from 0 shifted by tmin
         t0 = tmin if abs(tmin) > 1e-3 else 2.0
